@@ -47,7 +47,7 @@ ASSUMPTIONS = ['reference paths are absolute (per-kind data locations are '
                'is not among the four result kinds the statement lists']
 
 KINDS = [None, 'table', 'graph', 'csv', 'zzz', 'parquet']
-WHATS = ['string', 'textfile', 'binary', 'frame']
+WHATS = ['string', 'textfile', 'binary', 'frame', 'textfiles']
 F_PARQUET = 'F-regen-parquet-dtype-roundtrip'
 
 TEXTS = ['\n\nalpha\n  beta\n', '   \n', 'x\n\n\n', '  lead\ntrail  \n\n',
@@ -75,7 +75,7 @@ ROUNDTRIP_CHANGES = {6}
 
 
 def content_strategy(what):
-    if what in ('string', 'textfile'):
+    if what in ('string', 'textfile', 'textfiles'):
         return st.one_of(
             st.integers(0, len(TEXTS) - 1).map(lambda i: ['t', i]),
             T.a_text(0, 12).map(lambda s: ['s', s.replace('\x00', '')]),
@@ -216,7 +216,8 @@ def history(draw):
         kind = draw(st.sampled_from(kinds_pref + kinds_pref + KINDS))
         a = {'op': 'assert', 'what': what, 'file': fi, 'kind': kind,
              'content': draw(content_strategy(what))}
-        if what in ('string', 'textfile') and draw(st.integers(0, 2)) == 0:
+        if what in ('string', 'textfile', 'textfiles') and draw(
+                st.integers(0, 2)) == 0:
             a['strip'] = draw(st.sampled_from(['l', 'r', 'lr']))
         if what == 'frame' and draw(st.integers(0, 2)) == 0:
             # the frame carries row labels 10, 20, 30 ... and the assertion
@@ -290,7 +291,7 @@ def valid(case):
                         and s['what'] == 'frame'):
                     return False
                 c = s['content']
-                if s['what'] in ('string', 'textfile'):
+                if s['what'] in ('string', 'textfile', 'textfiles'):
                     if c[0] == 't':
                         TEXTS[c[1]]
                     elif c[0] != 's' or not isinstance(c[1], str) or (
@@ -383,12 +384,13 @@ class ShimRequest(object):
 
 def snapshot(d):
     out = {}
-    for f in sorted(os.listdir(d)):
-        p = os.path.join(d, f)
-        with open(p, 'rb') as fh:
-            data = fh.read()
-        out[f] = (hashlib.sha1(data).hexdigest(), os.stat(p).st_mtime_ns,
-                  len(data))
+    for (root, dirs, files) in os.walk(d):
+        for f in sorted(files):
+            p = os.path.join(root, f)
+            with open(p, 'rb') as fh:
+                data = fh.read()
+            out[os.path.relpath(p, d)] = (hashlib.sha1(data).hexdigest(),
+                                          os.stat(p).st_mtime_ns, len(data))
     return out
 
 
@@ -402,14 +404,15 @@ def quiet(fn, *a, **kw):
 
 
 def content_value(what, c):
-    if what in ('string', 'textfile'):
+    if what in ('string', 'textfile', 'textfiles'):
         return TEXTS[c[1]] if c[0] == 't' else c[1]
     if what == 'binary':
         return bytes.fromhex(c[1])
     return c05.build(FRAMES[c[1]])
 
 
-EXT = {'string': 'txt', 'textfile': 'txt', 'binary': 'bin',
+EXT = {'string': 'txt', 'textfile': 'txt', 'textfiles': 'txt',
+       'binary': 'bin',
        'frame': 'parquet'}
 
 
@@ -425,7 +428,8 @@ def pin_mtime(path):
         os.utime(path, (1600000000, 1600000000))
 
 
-def do_assert(rt, what, value, ref_path, kind, actdir, n, strip=None):
+def do_assert(rt, what, value, ref_path, kind, actdir, n, strip=None,
+              latin1=False):
     """Perform the assertion; returns (ok, raised)."""
     kw = {}
     if strip == 'idx':
@@ -439,11 +443,23 @@ def do_assert(rt, what, value, ref_path, kind, actdir, n, strip=None):
     if what == 'string':
         return quiet(rt.assertStringCorrect, value, ref_path, kind=kind,
                      **kw)
-    if what == 'textfile':
+    if what in ('textfile', 'textfiles'):
         ap = os.path.join(actdir, 'actual%d.txt' % n)
         with open(ap, 'w', encoding='utf-8', newline='') as f:
             f.write(value)
         pin_mtime(ap)
+        if latin1 and not any(ord(ch) > 255 for ch in value):
+            # the file is Latin-1 and the assertion says so
+            with open(ap, 'w', encoding='iso-8859-1', newline='') as f:
+                f.write(value)
+            pin_mtime(ap)
+            kw['encoding'] = 'iso-8859-1'
+        if what == 'textfiles':
+            # the list form, with a list of one
+            if 'encoding' in kw:
+                kw['encodings'] = [kw.pop('encoding')]
+            return quiet(rt.assertTextFilesCorrect, [ap], [ref_path],
+                         kind=kind, **kw)
         return quiet(rt.assertTextFileCorrect, ap, ref_path, kind=kind,
                      **kw)
     if what == 'binary':
@@ -491,6 +507,25 @@ def run_case(case, ctx):
     saw_normal_fail_existing = False
     regen_files = set()
     objects = {}
+    # in half of the histories references are named by bare file names and
+    # found through declared locations: a default one, and one of its own
+    # for the kind 'table'
+    locations = len(case['steps']) % 4 in (1, 2)
+    if locations:
+        os.makedirs(os.path.join(refdir, 'tables'), exist_ok=True)
+        out.label('references-by-name-and-location')
+
+    def new_object(rec_):
+        rt_ = ReferenceTest(rec_)
+        rt_.files.tmp_dir = tmpdir
+        rt_.pandas.tmp_dir = tmpdir
+        rt_.files.verbose = rt_.pandas.verbose = False
+        if locations:
+            rt_.set_data_location(refdir)
+            rt_.set_data_location(os.path.join(refdir, 'tables'),
+                                  kind='table')
+        return rt_
+
     for n, s in enumerate(case['steps']):
         op = s['op']
         tag = 'step %d %s' % (n, op)
@@ -550,16 +585,21 @@ def run_case(case, ctx):
             if not regenerated:
                 continue
             fname = sorted(regenerated)[s['k'] % len(regenerated)]
-            (what, content, kind, strip) = regenerated[fname]
+            (what, content, kind, strip, latin1) = regenerated[fname]
             if model_should(table, kind):
                 continue
             expect_pass = True
         else:
             what, kind, content = s['what'], s['kind'], s['content']
             strip = s.get('strip')
+            latin1 = (n % 3 == 1)
             fname = '%s%d.%s' % (what, s['file'], EXT[what])
             expect_pass = None
+        if locations and kind == 'table':
+            # (the kind's own location, whatever the default one holds)
+            fname = os.path.join('tables', os.path.basename(fname))
         ref_path = os.path.join(refdir, fname)
+        ref_arg = os.path.basename(fname) if locations else ref_path
         value = content_value(what, content)
         selected = model_should(table, kind)
         existed = os.path.exists(ref_path)
@@ -572,20 +612,14 @@ def run_case(case, ctx):
             who = 'B' if selected else 'A'
             if who not in objects:
                 rec_ = Recorder()
-                rt_ = ReferenceTest(rec_)
-                rt_.files.tmp_dir = tmpdir
-                rt_.pandas.tmp_dir = tmpdir
-                rt_.files.verbose = rt_.pandas.verbose = False
-                objects[who] = (rec_, rt_)
+                objects[who] = (rec_, new_object(rec_))
             (rec, rt) = objects[who]
             rec.calls = []
         else:
             rec = Recorder()
-            rt = ReferenceTest(rec)
-            rt.files.tmp_dir = tmpdir
-            rt.pandas.tmp_dir = tmpdir
-            rt.files.verbose = rt.pandas.verbose = False
-        ok, r = do_assert(rt, what, value, ref_path, kind, actdir, n, strip)
+            rt = new_object(rec)
+        ok, r = do_assert(rt, what, value, ref_arg, kind, actdir, n, strip,
+                          latin1)
         if selected:
             pin_mtime(ref_path)
         after = snapshot(refdir)
@@ -647,7 +681,7 @@ def run_case(case, ctx):
                 out.violate('regeneration-touches-only-target', what,
                             '%s: other reference files changed: %r -> %r'
                             % (tag, sorted(others_b), sorted(others_a)))
-            regenerated[fname] = (what, content, kind, strip)
+            regenerated[fname] = (what, content, kind, strip, latin1)
             regen_files.add(fname)
     out.nontrivial = len(case['steps']) >= 3 and (saw_regen_then_normal
                                                   or saw_normal_fail_existing)
